@@ -355,27 +355,30 @@ Definition prim_record_remove (k : string) (fs : list field) : res lval :=
 Definition prim_record_lazy_app (c : pc) (fs : list field) : lval :=
   VRec (map (fun fl => (fst fl, (fst (snd fl), snd (snd fl) ++ [c]))) fs).
 
-(** [merge::split::split_ref] on two field lists. *)
-Definition split_fields (m1 m2 : list field)
-  : list field * list (string * ((thunk * list pc) * (thunk * list pc))) * list field :=
-  if Nat.ltb (List.length m1) (List.length m2) then
-    let '(lft, ctrf, rgt) :=
-      fold_left
-        (fun '(lft, ctrf, rgt) '(k, v2) =>
-           match lookup k lft with
-           | Some v1 => (swap_remove k lft, ctrf ++ [(k, (v1, v2))], rgt)
-           | None => (lft, ctrf, rgt ++ [(k, v2)])
-           end) m2 (m1, [], []) in
-    (lft, ctrf, rgt)
-  else
-    let '(lft, ctrf, rgt) :=
-      fold_left
-        (fun '(lft, ctrf, rgt) '(k, v1) =>
-           match lookup k rgt with
-           | Some v2 => (lft, ctrf ++ [(k, (v1, v2))], swap_remove k rgt)
-           | None => (lft ++ [(k, v1)], ctrf, rgt)
-           end) m1 ([], [], m2) in
-    (lft, ctrf, rgt).
+(** [merge::split::split_ref] on two field lists: the smaller map is cloned and emptied with
+    [swap_remove] while the other one is iterated. *)
+Definition cfield := (string * ((thunk * list pc) * (thunk * list pc)))%type.
+Definition split_state := (list field * list cfield * list field)%type.
+
+Definition split_step_a (st : split_state) (f2 : field) : split_state :=
+  let '(lft, ctrf, rgt) := st in
+  let '(k, v2) := f2 in
+  match lookup k lft with
+  | Some v1 => (swap_remove k lft, ctrf ++ [(k, (v1, v2))], rgt)
+  | None => (lft, ctrf, rgt ++ [(k, v2)])
+  end.
+
+Definition split_step_b (st : split_state) (f1 : field) : split_state :=
+  let '(lft, ctrf, rgt) := st in
+  let '(k, v1) := f1 in
+  match lookup k rgt with
+  | Some v2 => (lft, ctrf ++ [(k, (v1, v2))], swap_remove k rgt)
+  | None => (lft ++ [(k, v1)], ctrf, rgt)
+  end.
+
+Definition split_fields (m1 m2 : list field) : split_state :=
+  if Nat.ltb (List.length m1) (List.length m2) then fold_left split_step_a m2 (m1, [], [])
+  else fold_left split_step_b m1 ([], [], m2).
 
 (** Record merge (standard mode): lft-only and rgt-only fields keep their pending contracts,
     a common field becomes the lazy merge of the two values under the contracts of both sides. *)
